@@ -368,4 +368,435 @@ theorem segSkip_eq (g : Seg) : segSkip g = (g.stype.toNat == Spec.PT_NULL || g.f
     · left; apply BitVec.eq_of_toNat_eq; rw [h]; decide
     · right; apply BitVec.eq_of_toNat_eq; rw [h]; rfl
 
+theorem filter_index_range' {α} (p : α → Bool) (idx : α → Nat) (q : Nat → Bool) :
+    ∀ (l : List α) (s : Nat), (∀ i (h : i < l.length), idx l[i] = s + i) →
+      (∀ i (h : i < l.length), p l[i] = q (s + i)) →
+      (l.filter p).map idx = (List.range' s l.length).filter q := by
+  intro l
+  induction l with
+  | nil => intro s _ _; rfl
+  | cons a l ih =>
+    intro s h1 h2
+    have ha1 := h1 0 (by simp)
+    have ha2 := h2 0 (by simp)
+    simp only [List.getElem_cons_zero, Nat.add_zero] at ha1 ha2
+    have ih' := ih (s + 1)
+      (fun i h => by have := h1 (i + 1) (by simp; omega); simp only [List.getElem_cons_succ] at this; omega)
+      (fun i h => by have := h2 (i + 1) (by simp; omega); simp only [List.getElem_cons_succ] at this
+                     rw [this]; congr 1; omega)
+    simp only [List.length_cons, List.range'_succ, List.filter_cons, ha2]
+    cases q s
+    · simpa using ih'
+    · simp [ha1, ih']
+
+theorem filter_index_range {α} (p : α → Bool) (idx : α → Nat) (q : Nat → Bool) (l : List α)
+    (h1 : ∀ i (h : i < l.length), idx l[i] = i) (h2 : ∀ i (h : i < l.length), p l[i] = q i) :
+    (l.filter p).map idx = (List.range l.length).filter q := by
+  rw [List.range_eq_range']
+  exact filter_index_range' p idx q l 0 (by simpa using h1) (by simpa using h2)
+
+theorem entsize_ok (num : BitVec 16) (clsB : BitVec 8) (ent : BitVec 16) (sz32 sz64 : Nat)
+    (h32 : sz32 < 65536) (h64 : sz64 < 65536)
+    (h : num.toNat ≠ 0 → (clsB = 1#8 → sz32 ≤ ent.toNat) ∧ (clsB = 2#8 → sz64 ≤ ent.toNat)) :
+    (((((BitVec.setWidth 32 num) != 0#32) && ((BitVec.setWidth 32 clsB) == (BitVec.setWidth 32 (BitVec.ofNat 8 Gen.ELFCLASS64)))) && (BitVec.ult (BitVec.setWidth 64 ent) (BitVec.ofNat 64 sz64))) || ((((BitVec.setWidth 32 num) != 0#32) && ((BitVec.setWidth 32 clsB) == (BitVec.setWidth 32 (BitVec.ofNat 8 Gen.ELFCLASS32)))) && (BitVec.ult (BitVec.setWidth 64 ent) (BitVec.ofNat 64 sz32)))) = false := by
+  by_cases hn : num.toNat = 0
+  · have : num = 0#16 := BitVec.eq_of_toNat_eq (by simpa using hn)
+    subst this; simp
+  · obtain ⟨a, b⟩ := h hn
+    have hne : (BitVec.setWidth 32 num != 0#32) = true := by
+      simp only [bne_iff_ne, ne_eq]
+      intro hh
+      have := congrArg BitVec.toNat hh
+      simp only [BitVec.toNat_setWidth, BitVec.toNat_ofNat, Nat.reducePow] at this
+      have := num.isLt
+      omega
+    have c64 : BitVec.setWidth 32 (BitVec.ofNat 8 Gen.ELFCLASS64) = 2#32 := by decide
+    have c32 : BitVec.setWidth 32 (BitVec.ofNat 8 Gen.ELFCLASS32) = 1#32 := by decide
+    rw [hne, c64, c32]
+    simp only [Bool.true_and, Bool.or_eq_false_iff, Bool.and_eq_false_iff]
+    have he := ent.isLt
+    constructor
+    · by_cases hc : clsB = 2#8
+      · right
+        have := b hc
+        simp only [BitVec.ult, BitVec.toNat_setWidth, BitVec.toNat_ofNat, Nat.reducePow, decide_eq_false_iff_not]
+        omega
+      · left
+        simp only [beq_eq_false_iff_ne, ne_eq]
+        intro hh; apply hc
+        apply BitVec.eq_of_toNat_eq
+        have := congrArg BitVec.toNat hh
+        simp only [BitVec.toNat_setWidth, BitVec.toNat_ofNat, Nat.reducePow] at this
+        have := clsB.isLt
+        simp only [BitVec.toNat_ofNat, Nat.reducePow]
+        omega
+    · by_cases hc : clsB = 1#8
+      · right
+        have := a hc
+        simp only [BitVec.ult, BitVec.toNat_setWidth, BitVec.toNat_ofNat, Nat.reducePow, decide_eq_false_iff_not]
+        omega
+      · left
+        simp only [beq_eq_false_iff_ne, ne_eq]
+        intro hh; apply hc
+        apply BitVec.eq_of_toNat_eq
+        have := congrArg BitVec.toNat hh
+        simp only [BitVec.toNat_setWidth, BitVec.toNat_ofNat, Nat.reducePow] at this
+        have := clsB.isLt
+        simp only [BitVec.toNat_ofNat, Nat.reducePow]
+        omega
+
+
+/-! ### small spec-to-model facts -/
+
+theorem cls_gate (img : Bytes)
+    (h : identByte img Spec.EI_CLASS = Spec.ELFCLASS32 ∨ identByte img Spec.EI_CLASS = Spec.ELFCLASS64) :
+    clsOfByte (img.getD Gen.EI_CLASS 0).toNat = some (clsOf img) := by
+  have e : (img.getD Gen.EI_CLASS 0).toNat = identByte img Spec.EI_CLASS := rfl
+  rw [e]
+  rcases h with h | h <;> rw [clsOf, h] <;> decide
+
+theorem enc_gate (img : Bytes)
+    (h : identByte img Spec.EI_DATA = Spec.ELFDATA2LSB ∨ identByte img Spec.EI_DATA = Spec.ELFDATA2MSB) :
+    encOfByte (img.getD Gen.EI_DATA 0).toNat = some (encOf img) := by
+  have e : (img.getD Gen.EI_DATA 0).toNat = identByte img Spec.EI_DATA := rfl
+  rw [e]
+  rcases h with h | h <;> rw [encOf, h] <;> decide
+
+theorem magic_gate (img : Bytes) (h : img.take 4 = Spec.ELFMAG) :
+    (img.getD 0 0).toNat = ELFMAG0 ∧ (img.getD 1 0).toNat = ELFMAG1 ∧
+    (img.getD 2 0).toNat = ELFMAG2 ∧ (img.getD 3 0).toNat = ELFMAG3 := by
+  have g : ∀ i, i < 4 → img.getD i 0 = (img.take 4).getD i 0 := by
+    intro i hi
+    simp [List.getD_eq_getElem?_getD, List.getElem?_take, hi]
+  rw [g 0 (by decide), g 1 (by decide), g 2 (by decide), g 3 (by decide), h]
+  decide
+
+theorem secData_take (img : Bytes) (b : SecBuf)
+    (hin : isNullOrNobitsTy b.stype = false → b.offset.toNat + b.size.toNat ≤ img.length) :
+    ((secData img b).1.getD []).take b.size.toNat = secBytes img b := by
+  unfold secData secBytes
+  cases hty : isNullOrNobitsTy b.stype
+  · have hi := hin hty
+    by_cases hz : b.size = 0
+    · simp [hz, slice]
+    · simp only [Bool.false_eq_true, if_false, hz, Option.getD_some]
+      have hl : (slice img b.offset.toNat b.size.toNat).length = b.size.toNat := slice_length_of_le hi
+      rw [List.take_append_of_le_length (by omega), List.take_of_length_le (by omega)]
+  · simp
+
+theorem secBytes_bridge (img : Bytes) (isLazy : Bool) (i : Nat)
+    (hk : shBase img i + shdrSize (clsOf img) ≤ img.length) :
+    secBytes img (secHdr (clsOf img) (encOf img) img (shBase img i) isLazy i) = secFileBytes img i := by
+  obtain ⟨_, h2, _, _, h5, h6, _⟩ := secHdr_bridge img (clsOf img) (encOf img) (shBase img i) isLazy i hk
+  unfold secBytes secFileBytes sh
+  rw [isNullOrNobits_eq, h2, h5, h6]
+  cases occupiesFile (Spec.get (Spec.shdrL (clsOf img)) (encOf img) img (shBase img i) "sh_type") <;> rfl
+
+
+/-! ### what the loaded object must show -/
+
+/-- the raw header struct is the file's first bytes and every getter returns the specification's
+    field -/
+def HeaderSpec (img : Bytes) (h : Bytes) : Prop :=
+  h = slice img 0 (Spec.ehdrSize (clsOf img)) ∧
+  (Hdr.e_type (clsOf img) (encOf img) h).toNat = eh img "e_type" ∧
+  (Hdr.e_machine (clsOf img) (encOf img) h).toNat = eh img "e_machine" ∧
+  (Hdr.e_version (clsOf img) (encOf img) h).toNat = eh img "e_version" ∧
+  (Hdr.e_entry (clsOf img) (encOf img) h).toNat = eh img "e_entry" ∧
+  (Hdr.e_phoff (clsOf img) (encOf img) h).toNat = eh img "e_phoff" ∧
+  (Hdr.e_shoff (clsOf img) (encOf img) h).toNat = eh img "e_shoff" ∧
+  (Hdr.e_flags (clsOf img) (encOf img) h).toNat = eh img "e_flags" ∧
+  (Hdr.e_ehsize (clsOf img) (encOf img) h).toNat = eh img "e_ehsize" ∧
+  (Hdr.e_phentsize (clsOf img) (encOf img) h).toNat = eh img "e_phentsize" ∧
+  (Hdr.e_phnum (clsOf img) (encOf img) h).toNat = eh img "e_phnum" ∧
+  (Hdr.e_shentsize (clsOf img) (encOf img) h).toNat = eh img "e_shentsize" ∧
+  (Hdr.e_shnum (clsOf img) (encOf img) h).toNat = eh img "e_shnum" ∧
+  (Hdr.e_shstrndx (clsOf img) (encOf img) h).toNat = eh img "e_shstrndx"
+
+/-- section `i` : every header field, the name, and the data a request delivers on any stream
+    over the image (whatever its position / error state) -/
+def SectionSpec (img : Bytes) (i : Nat) (b : SecBuf) : Prop :=
+  b.index = i ∧
+  b.nameOff.toNat = sh img i "sh_name" ∧ b.stype.toNat = sh img i "sh_type" ∧
+  b.flags.toNat = sh img i "sh_flags" ∧ b.addr.toNat = sh img i "sh_addr" ∧
+  b.offset.toNat = sh img i "sh_offset" ∧ b.size.toNat = sh img i "sh_size" ∧
+  b.link.toNat = sh img i "sh_link" ∧ b.info.toNat = sh img i "sh_info" ∧
+  b.addrAlign.toNat = sh img i "sh_addralign" ∧ b.entSize.toNat = sh img i "sh_entsize" ∧
+  b.name = secName img i ∧
+  ∀ ls : LoadSt, ls.st.data = img →
+    (((secGetData (clsOf img) [] ls b).2.data.getD []).take (secGetData (clsOf img) [] ls b).2.size.toNat
+      = secFileBytes img i)
+
+def SegmentSpec (img : Bytes) (j : Nat) (g : Seg) : Prop :=
+  g.index = j ∧
+  g.stype.toNat = ph img j "p_type" ∧ g.flags.toNat = ph img j "p_flags" ∧
+  g.offset.toNat = ph img j "p_offset" ∧ g.vaddr.toNat = ph img j "p_vaddr" ∧
+  g.paddr.toNat = ph img j "p_paddr" ∧ g.filesz.toNat = ph img j "p_filesz" ∧
+  g.memsz.toNat = ph img j "p_memsz" ∧ g.align.toNat = ph img j "p_align" ∧
+  g.secs.map (·.toNat) = members img j ∧
+  ∀ ls : LoadSt, ls.st.data = img →
+    (((segGetData (clsOf img) [] ls g).2.data.getD []).take g.filesz.toNat = segFileBytes img j)
+
+/-- section rung, per section: a section in the state the loader leaves it shows the specification's
+    values -/
+theorem SectionSpec_of_SecSt (img : Bytes) (isLazy : Bool) (i : Nat) (res : Bool) (b : SecBuf)
+    (h63 : img.length < 9223372036854775808)
+    (hk : shBase img i + shdrSize (clsOf img) ≤ img.length)
+    (hin : SecInside img.length (secHdr (clsOf img) (encOf img) img (shBase img i) isLazy i))
+    (hb : SecSt (clsOf img) (encOf img) img (shBase img i) isLazy i res (secName img i) b) :
+    SectionSpec img i b := by
+  obtain ⟨f1, f2, f3, f4, f5, f6, f7, f8, f9, f10⟩ :=
+    secHdr_bridge img (clsOf img) (encOf img) (shBase img i) isLazy i hk
+  have hidx : (secHdr (clsOf img) (encOf img) img (shBase img i) isLazy i).index = i := by
+    simp [secHdr, secInit]
+  obtain ⟨fd, L, hbe, hL⟩ := id hb
+  refine ⟨by rw [hbe]; exact hidx, by rw [hbe]; exact f1, by rw [hbe]; exact f2, by rw [hbe]; exact f3,
+    by rw [hbe]; exact f4, by rw [hbe]; exact f5, by rw [hbe]; exact f6, by rw [hbe]; exact f7,
+    by rw [hbe]; exact f8, by rw [hbe]; exact f9, by rw [hbe]; exact f10, by rw [hbe], ?_⟩
+  intro ls hd
+  obtain ⟨⟨fd', L', hg, _⟩, _⟩ := secGetData_SecSt _ _ img _ isLazy i res _ b ls hd h63 hin hb
+  rw [hg]
+  simp only [if_true]
+  rw [secData_take img _ hin, secBytes_bridge img isLazy i hk]
+
+
+theorem segData_take (img : Bytes) (j : Nat) (isLazy : Bool)
+    (hk : phBase img j + phdrSize (clsOf img) ≤ img.length)
+    (hin : SegInside img.length (segHdr (clsOf img) (encOf img) img (phBase img j) isLazy)) :
+    ((segData img (segHdr (clsOf img) (encOf img) img (phBase img j) isLazy)).getD []).take
+        (segHdr (clsOf img) (encOf img) img (phBase img j) isLazy).filesz.toNat = segFileBytes img j := by
+  obtain ⟨g1, _, g3, _, _, g6, _, _⟩ := segHdr_bridge img (clsOf img) (encOf img) (phBase img j) isLazy hk
+  unfold segData segFileBytes segHasData ph
+  have hs := segSkip_eq (segHdr (clsOf img) (encOf img) img (phBase img j) isLazy)
+  rw [g1, g6] at hs
+  cases hsk : segSkip (segHdr (clsOf img) (encOf img) img (phBase img j) isLazy)
+  · have hi := hin hsk
+    rw [hsk] at hs
+    have hs' : (Spec.get (Spec.phdrL (clsOf img)) (encOf img) img (phBase img j) "p_type" != Spec.PT_NULL &&
+        Spec.get (Spec.phdrL (clsOf img)) (encOf img) img (phBase img j) "p_filesz" != 0) = true := by
+      simp only [bne, ← Bool.not_or, ← hs, Bool.not_false]
+    simp only [hs', if_true, Bool.false_eq_true, if_false, Option.getD_some]
+    have hl : (slice img (segHdr (clsOf img) (encOf img) img (phBase img j) isLazy).offset.toNat
+        (segHdr (clsOf img) (encOf img) img (phBase img j) isLazy).filesz.toNat).length =
+        (segHdr (clsOf img) (encOf img) img (phBase img j) isLazy).filesz.toNat := slice_length_of_le hi
+    rw [List.take_append_of_le_length (by omega), List.take_of_length_le (by omega), g3, g6]
+  · rw [hsk] at hs
+    have hs' : (Spec.get (Spec.phdrL (clsOf img)) (encOf img) img (phBase img j) "p_type" != Spec.PT_NULL &&
+        Spec.get (Spec.phdrL (clsOf img)) (encOf img) img (phBase img j) "p_filesz" != 0) = false := by
+      simp only [bne, ← Bool.not_or, ← hs, Bool.not_true]
+    simp [hs']
+
+/-- segment rung, per segment (including membership) -/
+theorem SegmentSpec_of_segFinal (img : Bytes) (isLazy : Bool) (j : Nat) (secs : List SecBuf)
+    (h63 : img.length < 9223372036854775808)
+    (hk : phBase img j + phdrSize (clsOf img) ≤ img.length)
+    (hin : SegInside img.length (segHdr (clsOf img) (encOf img) img (phBase img j) isLazy))
+    (hw1 : ph img j "p_vaddr" + ph img j "p_memsz" < 18446744073709551616)
+    (hw2 : ph img j "p_offset" + ph img j "p_filesz" < 18446744073709551616)
+    (hlen : secs.length = eh img "e_shnum") (hn : eh img "e_shnum" < 65536)
+    (hsecs : ∀ i (h : i < secs.length), SectionSpec img i secs[i] ∧
+      sh img i "sh_addr" + sh img i "sh_size" < 18446744073709551616 ∧
+      sh img i "sh_offset" + sh img i "sh_size" < 18446744073709551616) :
+    SegmentSpec img j (segFinal (clsOf img) (encOf img) img (phBase img j) isLazy j secs) := by
+  obtain ⟨g1, g2, g3, g4, g5, g6, g7, g8⟩ := segHdr_bridge img (clsOf img) (encOf img) (phBase img j) isLazy hk
+  refine ⟨rfl, g1, g2, g3, g4, g5, g6, g7, g8, ?_, ?_⟩
+  · show ((secs.filter (memberOf (segHdr (clsOf img) (encOf img) img (phBase img j) isLazy))).map
+        (fun b => BitVec.ofNat 16 b.index)).map (·.toNat) = members img j
+    rw [List.map_map]
+    unfold members
+    rw [← hlen]
+    apply filter_index_range
+    · intro i h
+      have := (hsecs i h).1.1
+      simp only [Function.comp, this, BitVec.toNat_ofNat, Nat.reducePow]
+      omega
+    · intro i h
+      obtain ⟨⟨_, _, _, s3, s4, s5, s6, _⟩, w1, w2⟩ := hsecs i h
+      rw [member_eq_spec _ secs[i] (by rw [s4, s6]; exact w1) (by rw [s5, s6]; exact w2)
+        (by rw [g4, g7]; exact hw1) (by rw [g3, g6]; exact hw2)]
+      rw [s3, s4, s5, s6, g1, g3, g4, g6, g7]
+      rfl
+  · intro ls hd
+    have h := segGetData_segFinal (clsOf img) (encOf img) img (phBase img j) isLazy j secs ls hd h63 hin
+    rw [h.1]
+    exact segData_take img j isLazy hk hin
+
+
+/-- what `load` must produce for image `img` -/
+def LoadSpec (img : Bytes) (r : LoadRes) : Prop :=
+  r.ok = true ∧ r.obj.cls = clsOf img ∧ r.obj.enc = encOf img ∧
+  (∃ h, r.obj.hdr = some h ∧ HeaderSpec img h) ∧
+  r.obj.stream.data = img ∧ r.obj.stream.eof = false ∧ r.obj.stream.fail = false ∧
+  r.obj.secs.length = eh img "e_shnum" ∧
+  (∀ i (hi : i < r.obj.secs.length), SectionSpec img i r.obj.secs[i]) ∧
+  r.obj.segs.length = eh img "e_phnum" ∧
+  (∀ j (hj : j < r.obj.segs.length), SegmentSpec img j r.obj.segs[j])
+
+theorem identB (img : Bytes) (c : Cls) (hl : ehdrSize c ≤ img.length) :
+    Hdr.ident (slice img 0 (ehdrSize c)) Gen.EI_CLASS = BitVec.ofNat 8 (identByte img Spec.EI_CLASS) := by
+  unfold Hdr.ident identByte
+  have : Gen.EI_CLASS < ehdrSize c := by cases c <;> decide
+  rw [getD_slice0 img (ehdrSize c) Gen.EI_CLASS this]
+  rfl
+
+/-- **C02, whole load** : for every well-formed image of either class and byte order, loaded
+    eagerly or lazily from a string- or file-backed stream (no address translation), `load`
+    succeeds and the object shows exactly what the specification says is in the file -/
+theorem load_eq_spec (img : Bytes) (o : Obj) (k : StreamKind) (isLazy : Bool) (htr : o.trans = [])
+    (hwf : WellFormedImage img) :
+    ∃ r : LoadRes, load o { data := img, kind := k } isLazy = .ok r ∧ LoadSpec img r := by
+  obtain ⟨hmag, hcls, hdat, hehs, h63, hshent, hphent, hS, hP, hndx, hnames⟩ := hwf
+  have hsz := sizes_eq (clsOf img)
+  rw [← hsz.1] at hehs
+  rw [← hsz.2.1] at hshent hS
+  rw [← hsz.2.2] at hphent hP
+  obtain ⟨m0, m1, m2, m3⟩ := magic_gate img hmag
+  have hgate := load_gate o { data := img, kind := k } isLazy (clsOf img) (encOf img) htr rfl rfl m0 m1 m2 m3
+    (cls_gate img hcls) (enc_gate img hdat) hehs
+  simp only [] at hgate
+  obtain ⟨e1, e2, e3, e4, e5, e6, e7, e8, e9, e10, e11, e12, e13⟩ := ehdr_bridge img (clsOf img) (encOf img) hehs
+  have E : ∀ f, Spec.get (Spec.ehdrL (clsOf img)) (encOf img) img 0 f = eh img f := fun _ => rfl
+  rw [E] at e1 e2 e3 e4 e5 e6 e7 e8 e9 e10 e11 e12 e13
+  have hshnum : (Hdr.e_shnum (clsOf img) (encOf img) (slice img 0 (ehdrSize (clsOf img)))).toNat = eh img "e_shnum" := e12
+  have hphnum : (Hdr.e_phnum (clsOf img) (encOf img) (slice img 0 (ehdrSize (clsOf img)))).toNat = eh img "e_phnum" := e10
+  have hshb : ∀ j, (Hdr.e_shoff (clsOf img) (encOf img) (slice img 0 (ehdrSize (clsOf img)))).toNat +
+      j * (Hdr.e_shentsize (clsOf img) (encOf img) (slice img 0 (ehdrSize (clsOf img)))).toNat = shBase img j := by
+    intro j; rw [e6, e11]; rfl
+  have hphb : ∀ j, (Hdr.e_phoff (clsOf img) (encOf img) (slice img 0 (ehdrSize (clsOf img)))).toNat +
+      j * (Hdr.e_phentsize (clsOf img) (encOf img) (slice img 0 (ehdrSize (clsOf img)))).toNat = phBase img j := by
+    intro j; rw [e5, e9]; rfl
+  have hcb := identB img (clsOf img) hehs
+  have hc1 : BitVec.ofNat 8 (identByte img Spec.EI_CLASS) = 1#8 → clsOf img = .c32 := by
+    intro h
+    rcases hcls with h' | h'
+    · simp [clsOf, h']; decide
+    · rw [h'] at h; exact absurd h (by decide)
+  have hc2 : BitVec.ofNat 8 (identByte img Spec.EI_CLASS) = 2#8 → clsOf img = .c64 := by
+    intro h
+    rcases hcls with h' | h'
+    · rw [h'] at h; exact absurd h (by decide)
+    · simp [clsOf, h']
+  -- entry sizes
+  have hbadS : load_sections_entsize_bad (Hdr.e_shnum (clsOf img) (encOf img) (slice img 0 (ehdrSize (clsOf img))))
+      (Hdr.ident (slice img 0 (ehdrSize (clsOf img))) Gen.EI_CLASS)
+      (Hdr.e_shentsize (clsOf img) (encOf img) (slice img 0 (ehdrSize (clsOf img)))) = false := by
+    unfold load_sections_entsize_bad
+    apply entsize_ok _ _ _ sizeof_Elf32_Shdr sizeof_Elf64_Shdr (by decide) (by decide)
+    intro hn
+    rw [hshnum] at hn
+    have := hshent hn
+    rw [← e11] at this
+    rw [hcb]
+    constructor
+    · intro h; have hcl := hc1 h; rw [hcl] at this ⊢; exact this
+    · intro h; have hcl := hc2 h; rw [hcl] at this ⊢; exact this
+  have hbadP : load_segments_entsize_bad (Hdr.e_phnum (clsOf img) (encOf img) (slice img 0 (ehdrSize (clsOf img))))
+      (Hdr.ident (slice img 0 (ehdrSize (clsOf img))) Gen.EI_CLASS)
+      (Hdr.e_phentsize (clsOf img) (encOf img) (slice img 0 (ehdrSize (clsOf img)))) = false := by
+    unfold load_segments_entsize_bad
+    apply entsize_ok _ _ _ sizeof_Elf32_Phdr sizeof_Elf64_Phdr (by decide) (by decide)
+    intro hn
+    rw [hphnum] at hn
+    have := hphent hn
+    rw [← e9] at this
+    rw [hcb]
+    constructor
+    · intro h; have hcl := hc1 h; rw [hcl] at this ⊢; exact this
+    · intro h; have hcl := hc2 h; rw [hcl] at this ⊢; exact this
+  -- every record and every range inside
+  have hinS : ∀ j, j < eh img "e_shnum" →
+      SecInside img.length (secHdr (clsOf img) (encOf img) img (shBase img j) isLazy j) := by
+    intro j hj hty
+    obtain ⟨hk, hocc, _, _⟩ := hS j hj
+    obtain ⟨_, b2, _, _, b5, b6, _⟩ := secHdr_bridge img (clsOf img) (encOf img) (shBase img j) isLazy j hk
+    rw [isNullOrNobits_eq, b2] at hty
+    rw [b5, b6]
+    have : occupiesFile (sh img j "sh_type") = true := by unfold sh; simpa using hty
+    exact hocc this
+  have hinP : ∀ j, j < eh img "e_phnum" →
+      SegInside img.length (segHdr (clsOf img) (encOf img) img (phBase img j) isLazy) := by
+    intro j hj hsk
+    obtain ⟨hk, hhas, _, _⟩ := hP j hj
+    obtain ⟨b1, _, b3, _, _, b6, _, _⟩ := segHdr_bridge img (clsOf img) (encOf img) (phBase img j) isLazy hk
+    rw [segSkip_eq, b1, b6] at hsk
+    rw [b3, b6]
+    apply hhas
+    unfold segHasData ph
+    simp only [bne, ← Bool.not_or, hsk, Bool.not_false]
+  have hbody := loadBody_inside
+    { o with secs := [], segs := [], cls := clsOf img, enc := encOf img,
+             hdr := some (slice img 0 (ehdrSize (clsOf img))) }
+    (clsOf img) (encOf img) isLazy (slice img 0 (ehdrSize (clsOf img))) img
+    { data := img, pos := ehdrSize (clsOf img), gcount := ehdrSize (clsOf img), kind := k }
+    htr rfl rfl rfl h63 hbadS hbadP
+    (fun j hj => by rw [hshnum] at hj; rw [hshb]; exact ⟨(hS j hj).1, hinS j hj⟩)
+    (fun j hj => by rw [hphnum] at hj; rw [hphb]; exact ⟨(hP j hj).1, hinP j hj⟩)
+    (by rw [e13, hshnum]; exact hndx)
+  obtain ⟨r, hr, r1, r2, r3, r4, r5, r6, r7, r8, r9, r10, r11, r12, r13⟩ := hbody
+  have hsecAll : ∀ i (hi : i < r.obj.secs.length), SectionSpec img i r.obj.secs[i] := by
+    intro i hi
+    have hi' : i < eh img "e_shnum" := by rw [r10, hshnum] at hi; exact hi
+    obtain ⟨res, hst, _⟩ := r11 i hi
+    rw [hshb] at hst
+    apply SectionSpec_of_SecSt img isLazy i res _ h63 (hS i hi').1 (hinS i hi')
+    -- the resolved name is the specification's
+    have hname : nameOf (strtabOf (clsOf img) (encOf img) img
+          (Hdr.e_shoff (clsOf img) (encOf img) (slice img 0 (ehdrSize (clsOf img)))).toNat
+          (Hdr.e_shentsize (clsOf img) (encOf img) (slice img 0 (ehdrSize (clsOf img)))).toNat isLazy
+          (Hdr.e_shstrndx (clsOf img) (encOf img) (slice img 0 (ehdrSize (clsOf img)))).toNat)
+        (secHdr (clsOf img) (encOf img) img (shBase img i) isLazy i).nameOff.toNat = secName img i := by
+      have b1 := (secHdr_bridge img (clsOf img) (encOf img) (shBase img i) isLazy i (hS i hi').1).1
+      unfold nameOf strtabOf secName shstrtab
+      rw [e13, b1]
+      by_cases hz : eh img "e_shstrndx" = 0
+      · rw [hz]; rfl
+      · have hz' : ¬ eh img "e_shstrndx" = Spec.SHN_UNDEF := hz
+        have hlt : eh img "e_shstrndx" < eh img "e_shnum" := by
+          rcases hndx with h | h
+          · exact absurd h hz'
+          · exact h
+        simp only [hz, hz', if_false]
+        rw [hshb, secBytes_bridge img isLazy _ (hS _ hlt).1]
+        rfl
+    rw [hname] at hst
+    exact hst
+  refine ⟨r, by rw [hgate]; exact hr, r1, r2, r3, ⟨_, r4, ?_⟩, r6, r7, r8, by rw [r10, hshnum], hsecAll,
+    by rw [r12, hphnum], ?_⟩
+  · exact ⟨by rw [hsz.1], e1, e2, e3, e4, e5, e6, e7, e8, e9, e10, e11, e12, e13⟩
+  · -- segments
+    intro j hj
+    have hj' : j < eh img "e_phnum" := by rw [r12, hphnum] at hj; exact hj
+    rw [r13 j hj, hphb]
+    have hn16 : eh img "e_shnum" < 65536 := by
+      rw [← hshnum]; exact (Hdr.e_shnum _ _ _).isLt
+    apply SegmentSpec_of_segFinal img isLazy j r.obj.secs h63 (hP j hj').1 (hinP j hj') (hP j hj').2.2.1
+      (hP j hj').2.2.2 (by rw [r10, hshnum]) hn16
+    intro i hi
+    have hi' : i < eh img "e_shnum" := by rw [r10, hshnum] at hi; exact hi
+    exact ⟨hsecAll i hi, (hS i hi').2.2.1, (hS i hi').2.2.2⟩
+
+/-- with terminated names the reported name *is* the specification's C string -/
+theorem name_eq_cstr (img : Bytes) (hwf : WellFormedImage img) (i : Nat) (hi : i < eh img "e_shnum")
+    (hndx : eh img "e_shstrndx" ≠ Spec.SHN_UNDEF) :
+    Spec.cstrAt (secFileBytes img (eh img "e_shstrndx")) (sh img i "sh_name") = some (secName img i) := by
+  have h := hwf.2.2.2.2.2.2.2.2.2.2 hndx i hi
+  unfold secName shstrtab
+  simp only [hndx, if_false]
+  cases hc : Spec.cstrAt (secFileBytes img (eh img "e_shstrndx")) (sh img i "sh_name") with
+  | none => rw [hc] at h; exact absurd h (by simp)
+  | some s => rfl
+
+/-! ### non-vacuity : a concrete well-formed image (ELF32/LSB, one PT_LOAD, `.text`, `.shstrtab`) -/
+
+def wfImage : Bytes :=
+  [127, 69, 76, 70, 1, 1, 1, 0, 0, 0, 0, 0, 0, 0, 0, 0, 2, 0, 3, 0, 1, 0, 0, 0, 0, 16, 0, 0, 52, 0, 0, 0, 108, 0, 0, 0, 0, 0, 0, 0, 52, 0, 32, 0, 1, 0, 40, 0, 3, 0, 2, 0, 1, 0, 0, 0, 84, 0, 0, 0, 0, 16, 0, 0, 0, 16, 0, 0, 4, 0, 0, 0, 4, 0, 0, 0, 5, 0, 0, 0, 4, 0, 0, 0, 1, 2, 3, 4, 0, 46, 116, 101, 120, 116, 0, 46, 115, 104, 115, 116, 114, 116, 97, 98, 0, 0, 0, 0, 0, 0, 0, 0, 0, 0, 0, 0, 0, 0, 0, 0, 0, 0, 0, 0, 0, 0, 0, 0, 0, 0, 0, 0, 0, 0, 0, 0, 0, 0, 0, 0, 0, 0, 0, 0, 0, 0, 0, 0, 1, 0, 0, 0, 1, 0, 0, 0, 6, 0, 0, 0, 0, 16, 0, 0, 84, 0, 0, 0, 4, 0, 0, 0, 0, 0, 0, 0, 0, 0, 0, 0, 4, 0, 0, 0, 0, 0, 0, 0, 7, 0, 0, 0, 3, 0, 0, 0, 0, 0, 0, 0, 0, 0, 0, 0, 88, 0, 0, 0, 17, 0, 0, 0, 0, 0, 0, 0, 0, 0, 0, 0, 1, 0, 0, 0, 0, 0, 0, 0]
+
+example : WellFormedImage wfImage := by decide +kernel
+example : eh wfImage "e_shnum" = 3 ∧ eh wfImage "e_phnum" = 1 ∧ secName wfImage 1 = [0x2e, 0x74, 0x65, 0x78, 0x74] ∧
+    secFileBytes wfImage 1 = [1, 2, 3, 4] ∧ members wfImage 0 = [1] := by decide +kernel
+/-- the theorem applies to it (both modes, both stream kinds) -/
+example (k : StreamKind) (isLazy : Bool) :
+    ∃ r, load {} { data := wfImage, kind := k } isLazy = .ok r ∧ LoadSpec wfImage r :=
+  load_eq_spec wfImage {} k isLazy rfl (by decide +kernel)
+
 end ElfioVerif.C02
